@@ -268,6 +268,13 @@ def main():
             if quick and variant in ("dip", "dea") and sp == hi:
                 continue
             items.append(("mvp_sum", variant, False, o, sp, n_adc, True, (nh, np_)))
+        # the option subtract_gs=False (matrix of H instead of H - E0): lowest diagonal block
+        # against the explicit construction, and the forwarding of the option through mvp
+        nl, pl = max(lo.count("h"), 2), max(lo.count("p"), 2)
+        for o in (0, 2) if quick else (0, 1, 2):
+            items.append(("isr", variant, False, o, lo, lo, False, (nl, pl)))
+            items.append(("mvp_sum", variant, False, o, lo, 2, False, (nh, np_)))
+        items.append(("mvp", variant, False, 0, lo, lo, False, (nl, pl)))
     # heavier cases first
     items.sort(key=lambda it: -(it[3] * 10 + len(it[4]) + (len(it[5]) if isinstance(it[5], str) else 6)))
     results = pmap(run_case, items, limit=1500 if quick else 14000, workers=15)
